@@ -27,6 +27,17 @@ TINY = [0, 1, 2, 3, 4, 5, 7, 8, 15, 16, 255, 256, 65535, 65537]
 
 
 def arith_plan(quick, rnd):
+    plan = _arith_plan(quick, rnd)
+    for it in plan:
+        if it.get("mul") is not None and it["curve"] not in ("Curve25519", "Curve448"):
+            # the neighbours of the generator: -G and a second object with the generator's coordinates
+            bits = BITS[it["curve"]]
+            sc = [1, 2, "rand:%d" % rnd.randrange(8, 60)] if (quick and bits > 130) else [1, 2, "n-1", "n+1", "rand:%d" % rnd.randrange(8, bits)]
+            it["mul"].append({"points": ["mG", "G2"], "scalars": sc})
+    return plan
+
+
+def _arith_plan(quick, rnd):
     plan = []
     # scaled-down curves through the generic C path: every operand class x every scalar class
     for name, clen in SMALL:
